@@ -37,8 +37,12 @@ def load_known():
          fixed: property=Cxx <commit> key=<key> <what failed>
        Only KNOWN-FINDING lines suppress anything. Never written at run time."""
     known = {}
-    if os.path.exists(KNOWN):
-        for line in open(KNOWN):
+    files = [KNOWN] if os.path.exists(KNOWN) else []
+    d = os.path.join(VERIF, "known_findings.d")
+    if os.path.isdir(d):
+        files += sorted(os.path.join(d, f) for f in os.listdir(d) if f.endswith(".txt"))
+    for fn in files:
+        for line in open(fn):
             m = re.match(r"KNOWN-FINDING:\s+property=(\S+)\s+key=(\S+)\s+(.*)", line.strip())
             if m:
                 known[(m.group(1), m.group(2))] = m.group(3)
